@@ -19,16 +19,16 @@ def run(ctx, repo):
         '(R-GLOBAL-READONLY, R-COW, R-SOLE-WRITER). NOT decided: the prefix property inside libyaml\'s own 16 KiB buffer.')
     ctx.trust('CPython ast; the name-based may-call graph (every method of a given name is a possible callee); the '
               'classification of caller-supplied call sites in sa.rules_fault')
-    RF.r_no_foreign_catch(ctx, repo)
-    RS.r_one_object_per_call(ctx, repo)
-    RF.r_append_only_stream(ctx, repo)
-    RD.r_pyx_except_clause(ctx, repo)
-    E.r_global_readonly(ctx, repo)
-    RR.r_cow(ctx, repo)
-    RR.r_sole_writer(ctx, repo)
-    RX.r_no_process_state(ctx, repo)
-    RX.r_dispose_chain(ctx, repo, ['loader.SafeLoader', 'loader.FullLoader', 'loader.Loader', 'cyaml.CSafeLoader', 'cyaml.CLoader', 'dumper.SafeDumper', 'dumper.Dumper', 'cyaml.CSafeDumper', 'cyaml.CDumper'])
-    RX.r_no_generator_around_callback(ctx, repo)
+    ctx.call(RF.r_no_foreign_catch, repo)
+    ctx.call(RS.r_one_object_per_call, repo)
+    ctx.call(RF.r_append_only_stream, repo)
+    ctx.call(RD.r_pyx_except_clause, repo)
+    ctx.call(E.r_global_readonly, repo)
+    ctx.call(RR.r_cow, repo)
+    ctx.call(RR.r_sole_writer, repo)
+    ctx.call(RX.r_no_process_state, repo)
+    ctx.call(RX.r_dispose_chain, repo, ['loader.SafeLoader', 'loader.FullLoader', 'loader.Loader', 'cyaml.CSafeLoader', 'cyaml.CLoader', 'dumper.SafeDumper', 'dumper.Dumper', 'cyaml.CSafeDumper', 'cyaml.CDumper'])
+    ctx.call(RX.r_no_generator_around_callback, repo)
 
 
 if __name__ == '__main__':
